@@ -179,6 +179,7 @@ def check(prop, tier):
     else:
         verdict = 'held'
 
+    LAST_RC[0] = {'held': 0, 'violated': 1, 'inconclusive': 2}[verdict]
     desc = mod.describe(tier) if hasattr(mod, 'describe') else {}
     samples = m['samples'] or [{'note': 'no sample recorded'}]
     coverage = {
@@ -263,6 +264,21 @@ def replay(path):
 
 
 def main(argv):
+    try:
+        return _main(argv)
+    except BrokenPipeError:
+        # the reader closed stdout (e.g. `| head`): the verdict is in the evidence file and the exit code
+        try:
+            sys.stdout = open(os.devnull, 'w')
+        except OSError:
+            pass
+        return LAST_RC[0]
+
+
+LAST_RC = [2]
+
+
+def _main(argv):
     if len(argv) == 2 and argv[0] == 'replay':
         return replay(argv[1])
     if len(argv) >= 1 and argv[0].startswith('C'):
